@@ -16,6 +16,7 @@ C == Cases[cid]
 RealSet == { [lhs |-> C.prods[i].lhs, rhs |-> C.prods[i].rhs] : i \in 2..Len(C.prods) }
 GrammarClauses ==
   IF ~C.built THEN {"C13:grammar-does-not-build"}
+  ELSE IF C.xgrammar.present /\ C.xgrammar.lr_built # C.xgrammar.lrx_built THEN {"C13:lr-construction-differs-from-documented-expansion-grammar"}
   ELSE IF ~HasGroup(C.ast) /\ ~AnyGreedy(C.ast) /\ RealSet # Expand(C.ast) THEN {"C13:productions-differ-from-documented-expansion"}
   ELSE {}
 
@@ -37,6 +38,8 @@ InputClauses ==
              In.glr.results[i] # Eval(C.prods, C.akind, C.assign, {}, In.glr.trees[i])
        THEN {"C13:result-differs-from-documented-meaning"} ELSE {})
  \cup (IF In.lr.built /\ In.lr.ok /\ In.glr.ok /\ In.glr.complete /\ In.lr.result \notin evals THEN {"C13:lr-result-not-a-documented-result"} ELSE {})
+ \cup (IF In.x.lr # In.x.lrx THEN {"C13:lr-language-differs-from-documented-expansion-grammar"} ELSE {})
+ \cup (IF In.x.ps # In.x.psx THEN {"C13:glr-prefer-shifts-language-differs-from-documented-expansion-grammar"} ELSE {})
  \cup (IF C.greedy /\ In.glr.ok # In.plain.ok THEN {"C13:greedy-changes-language"} ELSE {})
  \cup (IF C.greedy /\ In.glr.ok /\ In.glr.complete /\ In.plain.complete /\ ~(results \subseteq { In.plain.results[i] : i \in DOMAIN In.plain.results })
        THEN {"C13:greedy-result-not-among-non-greedy-results"} ELSE {})
